@@ -28,7 +28,7 @@ MANIFEST = {
             'node\'s greeting handler (an observation wrapper installed by the harness at run time, not a repo hook).',
 }
 
-BEHAVIOURS = ['greets', 'greets', 'silent', 'refuses', 'timeout', 'unreachable', 'closes_after_hello', 'announcer', 'self']
+BEHAVIOURS = ['greets', 'greets', 'silent', 'refuses', 'timeout', 'unreachable', 'closes_after_hello', 'announcer', 'self', 'self_forwarded']
 
 
 def generate(seed, tier):
@@ -60,7 +60,7 @@ def generate(seed, tier):
             ops.append({'op': 'tick', 'dt': dt})
         elif x < 0.55:
             ops.append({'op': 'toggle', 'addr': rng.randrange(1, n_addr) if long_run else rng.randrange(n_addr),
-                        'behaviour': rng.choice(['refuses', 'timeout', 'silent', 'unreachable']) if long_run else rng.choice(BEHAVIOURS[:-1])})
+                        'behaviour': rng.choice(['refuses', 'timeout', 'silent', 'unreachable']) if long_run else rng.choice(BEHAVIOURS[:-2])})
         elif x < 0.7:
             ops.append({'op': 'incoming', 'addr': rng.randrange(n_addr), 'my_port': rng.choice([0, 2412, 2413, 9000, 'same']),
                         'greet': rng.random() < 0.8 and not long_run})
@@ -204,6 +204,11 @@ def execute(script):
     def make_bot(i, a):
         beh = a['behaviour']
         if beh == 'self':
+            return None
+        if beh == 'self_forwarded':
+            # an address of the node's own that is not its listening address (port forward, NAT hairpin): dialling it reaches the
+            # node's own listener; the greeting it gets back announces the listening port, not the dialled one
+            k.net.aliases[(a['host'], a['port'])] = ('10.0.0.1', 2412)
             return None
         b = Bot(k, 'addr%d' % i, a['host'], {
             'greet': beh in ('greets', 'closes_after_hello', 'announcer'), 'silent': beh == 'silent',
